@@ -193,6 +193,15 @@ impl World {
         }
         v
     }
+    /// the leftover sweep gives UTxO `i` another coin (same outpoint, owner and assets)
+    pub fn set_utxo_coin(&mut self, i: usize, coin: u64) {
+        let (spec, u) = &mut self.utxos[i];
+        spec.coin = coin;
+        let old = u.output();
+        let mut v = old.amount();
+        v.set_coin(&bn(coin));
+        *u = TransactionUnspentOutput::new(&u.input(), &TransactionOutput::new(&old.address(), &v));
+    }
     pub fn lookup(&self, op: &(Vec<u8>, u64)) -> Option<usize> {
         (0..self.utxos.len()).find(|i| &op_outpoint_key(*i) == op)
     }
@@ -838,12 +847,11 @@ pub fn setup(w: &World, st: &St, params: &Params) -> Result<TransactionBuilder, 
     if let Some(d) = st.m.donation {
         tb.set_donation(&bn(d));
     }
-    match st.m.fee_req {
-        Some(0) => tb.set_fee(&bn(200_000)),
-        Some(1) => tb.set_fee(&bn(2_000_000)),
-        Some(2) => tb.set_min_fee(&bn(100)),
-        Some(_) => tb.set_min_fee(&bn(900_000)),
-        None => {}
+    if let Some(r) = st.m.fee_req {
+        match fee_request_value(r) {
+            (true, v) => tb.set_fee(&bn(v)),
+            (false, v) => tb.set_min_fee(&bn(v)),
+        }
     }
     for k in &st.m.req_signers {
         tb.add_required_signer(&kh(*k));
@@ -892,7 +900,10 @@ pub fn fee_request_value(i: usize) -> (bool, u64) {
         0 => (true, 200_000),
         1 => (true, 2_000_000),
         2 => (false, 100),
-        _ => (false, 900_000),
+        3 => (false, 900_000),
+        // 4, 5: requests on the scale of the scaled-down parameter sets of the leftover sweep
+        4 => (true, 400),
+        _ => (false, 330),
     }
 }
 
@@ -1281,6 +1292,100 @@ pub fn builder_scenario(prop: &'static str, tier: Tier, deep: bool) -> BoxedScen
     })
 }
 
+// ---------------------------------------------------------------------------------------------
+// the leftover sweep: one shape, the input coin swept across every threshold of the change logic
+
+thread_local! {
+    static SWEEP_WORLD: std::cell::RefCell<World> = std::cell::RefCell::new(World::new());
+}
+
+/// parameter sets of the sweep: mainnet scale (thresholds hundreds of thousands of lovelace apart,
+/// swept in steps) and a scaled-down set (1 lovelace per byte for fee and min-ADA, no constant:
+/// every threshold lies within a few hundred lovelace, swept in steps of ONE)
+pub fn sweep_config(i: usize) -> (&'static str, Params, bool) {
+    let mut p = Params::mainnet();
+    let tiny = i >= 3;
+    if tiny {
+        p.fee_a = 1;
+        p.fee_b = 0;
+        p.coins_per_byte = 1;
+    }
+    let name = match i % 3 {
+        0 => {
+            if tiny { "scaled-down" } else { "mainnet" }
+        }
+        1 => {
+            p.prefer_pure_change = true;
+            if tiny { "scaled-down,prefer_pure_change" } else { "mainnet,prefer_pure_change" }
+        }
+        _ => {
+            p.do_not_burn = true;
+            if tiny { "scaled-down,do_not_burn_extra_change" } else { "mainnet,do_not_burn_extra_change" }
+        }
+    };
+    (name, p, tiny)
+}
+
+pub const SWEEP_TINY_RANGE: usize = 1600;
+pub const SWEEP_MAIN_RANGE: u64 = 2_700_000;
+
+pub fn leftover_sweep_scenario(prop: &'static str, tier: Tier) -> BoxedScenario {
+    let step: u64 = if tier.thorough() { 29 } else { 389 };
+    let methods: Vec<Method> = if tier.thorough() { vec![Method::Change, Method::ChangeWithDatum] } else { vec![Method::Change] };
+    Box::new(move |ctx: &mut Ctx| {
+        // the swept input: pure ADA at a base address / ADA + one asset / ADA + a three-policy bundle
+        let k = [0usize, 3, 4][ctx.choose_free(3)];
+        // requested output: 1 ADA / 1.5 ADA + 3 units of an asset both asset inputs hold
+        let oi = ctx.choose_free(2);
+        if oi == 1 && k == 0 {
+            return;
+        }
+        let ci = ctx.choose_free(6);
+        let (cname, params, tiny) = sweep_config(ci);
+        // fee request: none / exact / lower bound below / lower bound above the computed fee (on the scale of the set)
+        let fi = ctx.choose_free(4);
+        let fee_op = match (fi, tiny) {
+            (0, _) => None,
+            (1, false) => Some(Op::Fee(0)),
+            (2, false) => Some(Op::Fee(2)),
+            (3, false) => Some(Op::Fee(3)),
+            (1, true) => Some(Op::Fee(4)),
+            (2, true) => Some(Op::Fee(2)),
+            _ => Some(Op::Fee(5)),
+        };
+        let mi = ctx.choose_free(methods.len());
+        let method = methods[mi];
+        let n = if tiny { SWEEP_TINY_RANGE } else { (SWEEP_MAIN_RANGE / step) as usize + 1 };
+        let idx = ctx.choose_free(n) as u64;
+        let leftover = if tiny { idx } else { idx * step };
+        let out_coin: u64 = if oi == 0 { 1_000_000 } else { 1_500_000 };
+        let coin = out_coin + leftover;
+        SWEEP_WORLD.with(|cell| {
+            let mut wm = cell.borrow_mut();
+            wm.set_utxo_coin(k, coin);
+            let w: &World = &wm;
+            let mut st = St::new();
+            let mut hist = vec![Op::In(k, 0), Op::Out(oi)];
+            if let Some(f) = fee_op {
+                hist.push(f);
+            }
+            for op in &hist {
+                match guard(|| apply(w, &mut st, *op)) {
+                    Ok(true) => {}
+                    _ => return,
+                }
+            }
+            ctx.set_sample(|| format!("swept input {} with coin {} (leftover {} over the requested {}) ; history {:?} ; finish {:?} under {}", k, coin, leftover, out_coin, hist, method, cname));
+            ctx.observe(&(k, oi, ci, fi, mi, coin));
+            let fin = finish(w, &st, &params, method, ctx, false);
+            if tiny {
+                ctx.hit("sweep:scaled-down-parameters");
+            }
+            crate::props::builder_oracles::judge(prop, ctx, w, &st, &hist, &params, cname, method, &fin);
+        })
+    })
+}
+
 pub fn scenario_for(prop: &str, name: &str, tier: Tier) -> Option<BoxedScenario> {
     let stat: &'static str = match prop {
         "C03" => "C03",
@@ -1296,6 +1401,7 @@ pub fn scenario_for(prop: &str, name: &str, tier: Tier) -> Option<BoxedScenario>
     match name {
         "builder" => Some(builder_scenario(stat, tier, false)),
         "builder_deep" => Some(builder_scenario(stat, tier, true)),
+        "leftover_sweep" if matches!(stat, "C05" | "C06" | "C07") => Some(leftover_sweep_scenario(stat, tier)),
         _ => None,
     }
 }
@@ -1315,6 +1421,12 @@ pub fn explore_for(prop: &str, tier: Tier, seed: u64, rep: &mut Report) {
     rep.bound("builder_methods", serde_json::json!(methods_for(prop, tier).iter().map(|m| format!("{:?}", m)).collect::<Vec<_>>()));
     rep.bound("builder_configs", serde_json::json!(configs_for(prop, tier).iter().map(|c| config(*c).0).collect::<Vec<_>>()));
     rep.add("builder (BFS over operation histories)", &format!("all histories to depth {} with canonical-state dedup; every (method x config) in every state; RNG <= 1 deviation", depth), st);
+    if matches!(prop, "C05" | "C06" | "C07") {
+        let f = scenario_for(prop, "leftover_sweep", tier).unwrap();
+        let st = crate::engine::explore("leftover_sweep", &*f, &Opts::new(seed));
+        rep.bound("leftover_sweep", serde_json::json!({"inputs": ["pure ADA", "ADA + 1 asset", "ADA + 3-policy bundle"], "outputs": ["1 ADA", "1.5 ADA + asset"], "parameter_sets": (0..6).map(|i| sweep_config(i).0).collect::<Vec<_>>(), "fee_requests": ["none", "exact", "lower bound below", "lower bound above"], "mainnet_scale": format!("leftover 0..={} in steps of {}", SWEEP_MAIN_RANGE, if tier.thorough() { 29 } else { 389 }), "scaled_down": format!("leftover 0..{} in steps of 1", SWEEP_TINY_RANGE)}));
+        rep.add("leftover_sweep (one shape, input coin swept across every change / burn / min-ADA threshold)", "full product", st);
+    }
     if matches!(prop, "C05" | "C06" | "C07" | "C03" | "C09" | "C10" | "C18") {
         let f = scenario_for(prop, "builder_deep", tier).unwrap();
         let core = core_ops_for(prop);
